@@ -203,10 +203,18 @@ def run(ck):
         ck.notes.append("source overlay in effect: %s" % sorted(ov))
 
     # ---------------------------------------------------------------- (a) model checking
-    maxops = int(os.environ.get("C16_MC_MAXOPS", "0")) or (9 if thorough else 7)   # override: development aid only
-    ck.model_check(SPEC, "PaymentStoreMC", "PaymentStoreMC.cfg",
-                   "PaymentStore strict, all call sequences of length <= %d, 2 payments x 3 attempt ids" % maxops,
-                   constants=consts(MaxOps=maxops), name="mc_strict", timeout=1500, workers=MC_WORKERS)
+    # PaymentStoreMCFull: no bound on the length of the call sequence - the quotient of the state space by the
+    # (sound) view is finite and is explored completely (51 484 states / diameter 11 for 3 attempt ids).
+    dev = int(os.environ.get("C16_MC_MAXOPS", "0"))   # development aid: bounded run instead of the complete one
+    if dev:
+        ck.model_check(SPEC, "PaymentStoreMC", "PaymentStoreMC.cfg", "PaymentStore strict, call sequences <= %d (dev)" % dev,
+                       constants=consts(MaxOps=dev), name="mc_dev", timeout=1500, workers=MC_WORKERS)
+        ck.notes.append("C16_MC_MAXOPS=%d: bounded model checking run (development aid)" % dev)
+    else:
+        for na in ([3, 4] if thorough else [3]):
+            ck.model_check(SPEC, "PaymentStoreMC", "PaymentStoreMCFull.cfg",
+                           "PaymentStore strict, complete state space, 2 payments x %d attempt ids, value 3, 12 descriptors" % na,
+                           constants=consts(NA=na), name="mc_full_na%d" % na, timeout=1700, workers=MC_WORKERS)
     ck.cov["exhaustive"] = True
     # what the two named deviations break (expected violations: evidence that the invariants bite)
     for const, expect in (("F2Quirk", "OwnHashOnly"), ("KVDupQuirk", "AttemptStable")):
@@ -281,6 +289,9 @@ def run(ck):
         recs = core.read_ndjson(p)
         ncalls = sum(1 for r in recs if not is_reset(r))
         ck.cov["evaluations"] += ncalls
+        if accepted[be] is None:
+            ck.notes.append("concurrent runs of the %s store not judged: its sequential traces are already rejected" % be)
+            continue
         c = consts(be, bool(quirks.get(be)))
         ok, first_bad, r = run_conc(ck, be, p, c, "conc_%s" % be)
         nruns = sum(1 for x in recs if is_reset(x))
